@@ -14,7 +14,8 @@
 //             the observations of the run are printed as `a <obs>` (not compared with the model)
 //   ops:  P <prog>            (M) host ExecuteThread of a fresh script generated from <prog>
 //                             prog := instr* ; instr := p<m> | w<ms> | i<x>=<int> | s<x>=<hex> | f<x>=<bits>
-//                                     | n<x> | a<x>.<k>=<int> | c<x>=<y> | v<x> | e<x>.<k> | t( instr* )
+//                                     | n<x> | a<x>.<k>=<int|nil> | A<x>.<k>=<y> | g<y>=<x>.<k> | c<x>=<y>
+//                                     | C<x>=<l<int>|v<y>>,.. | v<x> | e<x>.<k> | t[:<a>,<a>..]( instr* )
 //         D <name> <text>     (F) register the script <name>; `\n` in <text> is a new line
 //         S <name> [label]    (F) host ExecuteThread(script, label)
 //         E <targetname>*     (F) entities (by targetname) that the host archives with the scripts
@@ -226,16 +227,29 @@ static std::vector<std::string> parseBlock(std::istringstream& is, Gen& g)
                              std::string key = r.substr(d + 1, q - d - 1); if (key[0] == '-') key = "( " + key + ")";
                              st.push_back("local.x" + r.substr(0, d) + "[" + key + "] = " + val); }
         else if (c == 'c') { size_t q = r.find('='); st.push_back("local.x" + r.substr(0, q) + " = local.x" + r.substr(q + 1)); }
+        else if (c == 'A') { size_t d = r.find('.'), q = r.find('='); std::string key = r.substr(d + 1, q - d - 1); if (key[0] == '-') key = "( " + key + ")";
+                             st.push_back("local.x" + r.substr(0, d) + "[" + key + "] = local.x" + r.substr(q + 1)); }
+        else if (c == 'g') { size_t q = r.find('='), d = r.find('.'); std::string key = r.substr(d + 1); if (key[0] == '-') key = "( " + key + ")";
+                             st.push_back("local.x" + r.substr(0, q) + " = local.x" + r.substr(q + 1, d - q - 1) + "[" + key + "]"); }
+        else if (c == 'C') { size_t q = r.find('='); std::string items = r.substr(q + 1), expr, it; std::istringstream is2(items);
+                             while (std::getline(is2, it, ',')) { if (!expr.empty()) expr += "::"; if (it[0] == 'v') expr += "local.x" + it.substr(1); else { std::string val = it.substr(1); if (val[0] == '-') val = "( " + val + ")"; expr += val; } }
+                             st.push_back("local.x" + r.substr(0, q) + " = " + expr); }
         else if (c == 'v') st.push_back("println local.x" + r);
         else if (c == 'e') { size_t d = r.find('.'); std::string key = r.substr(d + 1); if (key[0] == '-') key = "( " + key + ")"; st.push_back("println local.x" + r.substr(0, d) + "[" + key + "]"); }
         else if (c == 't') {
             int lab = ++g.nlabels;
+            // t( = no arguments; t:4,5( = thread lN local.x4 local.x5, the label binds local.x101 local.x102
+            std::string args, parms;
+            if (r.size() > 1 && r[0] == ':') {
+                std::istringstream is2(r.substr(1, r.size() - 2)); std::string a; int pn = 101;
+                while (std::getline(is2, a, ',')) { args += " local.x" + a; parms += " local.x" + std::to_string(pn++); }
+            }
             std::vector<std::string> body = parseBlock(is, g);
-            std::string blk = "l" + std::to_string(lab) + ":\n";
+            std::string blk = "l" + std::to_string(lab) + parms + ":\n";
             for (auto& s : body) blk += s + "\n";
             blk += "end\n";
             g.blocks.push_back(blk);
-            st.push_back("thread l" + std::to_string(lab));
+            st.push_back("thread l" + std::to_string(lab) + args);
         }
     }
     return st;
